@@ -2970,35 +2970,52 @@ impl Context {
                 // the block are not determined yet. These 0s will be
                 // overwritten later.
                 let _ = self.push_inst(Instruction::JmpIf(c, 0, 0, 0));
-                //todo: state offset for branches
+                // Only one of the two branches runs, so both must start from the same state
+                // cursor and leave it at the same position: remember the bookkeeping after the
+                // condition, evaluate each branch from it, emit each branch's pending cursor
+                // move inside that branch, and pad the shorter branch.
+                let (branch_push_sum, branch_pending) = {
+                    let data = self.get_ctxdata();
+                    (data.push_sum, data.next_state_offset)
+                };
                 //insert then block
                 let then_bidx = cond_bidx + 1;
                 let (t, _, state_t) = self.eval_block(Some(*then));
+                self.consume_and_insert_pushoffset();
+                let then_end_bidx = self.get_ctxdata().current_bb;
+                let then_sum = self.get_ctxdata().push_sum;
                 //jmp to ret is inserted in bytecodegen
                 //insert else block
                 let else_bidx = self.get_ctxdata().current_bb + 1;
+                {
+                    let data = self.get_ctxdata();
+                    data.push_sum = branch_push_sum;
+                    data.next_state_offset = branch_pending;
+                }
                 let (e, _, state_e) = self.eval_block(*else_);
-                let then_size = state_t.iter().map(|s| s.total_size()).sum::<u64>();
-                let else_size = state_e.iter().map(|s| s.total_size()).sum::<u64>();
-                let branch_state = match then_size.cmp(&else_size) {
+                self.consume_and_insert_pushoffset();
+                let else_end_bidx = self.get_ctxdata().current_bb;
+                let else_sum = self.get_ctxdata().push_sum;
+                let branch_state = match then_sum.cmp(&else_sum) {
                     std::cmp::Ordering::Greater => {
-                        let elseb = self.get_current_fn().body.get_mut(else_bidx).unwrap();
+                        let elseb = self.get_current_fn().body.get_mut(else_end_bidx).unwrap();
                         elseb.0.push((
                             Arc::new(Value::None),
-                            Instruction::PushStateOffset(then_size - else_size),
+                            Instruction::PushStateOffset(then_sum - else_sum),
                         ));
                         state_t.clone()
                     }
                     std::cmp::Ordering::Less => {
-                        let thenb = self.get_current_fn().body.get_mut(then_bidx).unwrap();
+                        let thenb = self.get_current_fn().body.get_mut(then_end_bidx).unwrap();
                         thenb.0.push((
                             Arc::new(Value::None),
-                            Instruction::PushStateOffset(else_size - then_size),
+                            Instruction::PushStateOffset(else_sum - then_sum),
                         ));
                         state_e.clone()
                     }
                     std::cmp::Ordering::Equal => state_t.clone(),
                 };
+                self.get_ctxdata().push_sum = then_sum.max(else_sum);
                 //insert return block
                 self.add_new_basicblock();
                 let res = self.push_inst(Instruction::Phi(t, e));
